@@ -871,6 +871,13 @@ def _rec_shape(ctx: Ctx, occ: FuncInfo) -> None:
     guards = [s for s in lp.body if isinstance(s, ast.If)]
     lp_body_wo_guard = [s for s in lp.body if s not in guards]
     gap_ok = False
+    if len(lp.body) == 1 and len(guards) == 1 and not guards[0].orelse and isinstance(guards[0].test, ast.UnaryOp) and isinstance(guards[0].test.op, ast.Not):
+        # canonical spelling of `if <reject>: continue; REST`  ==  `if not <reject>: REST`
+        g0 = guards[0]
+        guards = [ast.If(test=g0.test.operand, body=[ast.Continue()], orelse=[])]
+        ast.copy_location(guards[0], g0)
+        lp = ast.copy_location(ast.For(target=lp.target, iter=lp.iter, body=[guards[0]] + list(g0.body), orelse=[]), lp)
+        lp_body_wo_guard = list(g0.body)
     for g in guards:
         conj = {unparse(c) for c in (g.test.values if isinstance(g.test, ast.BoolOp) and isinstance(g.test.op, ast.And) else [g.test])}
         touching = conj & {f"{o} == {i}", f"{i} == {o}", f"{o} <= {i}"}
